@@ -42,8 +42,42 @@ def judge(ctx, cases):
         cases = p
     wb = ctx.build("writers")
     trace = os.path.join(ctx.scratch, "trace_c10_%d.ndjson" % ctx._n)
-    with open(cases, "rb") as fi, open(trace, "wb") as fo:
-        ctx.run([wb, "senexec"], stdin=fi, stdout=fo, timeout=1200)
+    # A reader (or writer) that never returns cannot be recovered in-process: the driver then names the cases in flight
+    # (exit 3); they are taken out, re-run one by one in -solo mode, where the hanging call becomes a trace event
+    # (ek = parse-hang | write-hang) that TraceSen judges like any other behaviour.
+    all_lines = open(cases, "rb").readlines()
+    rest, suspects = list(range(len(all_lines))), []
+    for _ in range(4):
+        sub = os.path.join(ctx.scratch, "sub_cases_%d.ndjson" % ctx._n)
+        open(sub, "wb").write(b"".join(all_lines[i] for i in rest))
+        with open(sub, "rb") as fi, open(trace, "wb") as fo:
+            p = ctx.run([wb, "senexec"], stdin=fi, stdout=fo, timeout=1200, check=False)
+        if p.returncode == 0:
+            break
+        m = [l for l in (p.stderr or b"").decode(errors="replace").splitlines() if l.startswith("HANG ")]
+        if p.returncode != 3 or not m:
+            raise Infra("writers senexec failed rc=%s: %s" % (p.returncode, (p.stderr or b"").decode(errors="replace")[-1500:]))
+        hung = sorted({rest[int(x)] for x in m[0].split()[1:]})
+        log("driver reports %d case(s) in flight while a call did not return; re-running them solo" % len(hung))
+        suspects += hung
+        rest = [i for i in rest if i not in set(hung)]
+    else:
+        # many cases hang: the ones already isolated decide (run solo below); the rest of this batch is not examined
+        log("driver keeps hanging; %d cases of this batch are not examined in this run" % len(rest))
+        ctx.cov["cases_not_examined_because_driver_hung"] = ctx.cov.get("cases_not_examined_because_driver_hung", 0) + len(rest)
+        rest = []
+        open(trace, "wb").close()
+    for i in suspects[:40]:
+        one = os.path.join(ctx.scratch, "solo_case.ndjson")
+        open(one, "wb").write(all_lines[i])
+        with open(one, "rb") as fi:
+            p = ctx.run([wb, "senexec", "-solo"], stdin=fi, timeout=120)
+        with open(trace, "ab") as fo:
+            fo.write(p.stdout)
+    order = rest + suspects[:40]
+    reordered = os.path.join(ctx.scratch, "cases_reordered_%d.ndjson" % ctx._n)
+    open(reordered, "wb").write(b"".join(all_lines[i] for i in order))
+    cases = reordered
     nlines = sum(1 for _ in open(trace, "rb"))
     chunk = max(200, min(12000, nlines // PAR + 1))
     res = ctx.validate("TraceSen", trace, cfg=TRACE_CFG, chunk=chunk, par=PAR, heap="3g")
